@@ -1114,7 +1114,8 @@ fn at_mut<'a>(items: &'a mut Vec<It>, pos: &[usize]) -> (&'a mut Vec<It>, usize)
 /// Inject one defect of `kind` at position `pos` of `lib` (if it applies
 /// there). `spec` is the state before this library. Returns a description.
 fn inject(lib: &mut Vec<It>, pos: &[usize], kind: &Defect, spec: &Spec, rng: &mut Prng, tag: u64) -> Option<String> {
-    let lib_markers = { let (_, s) = spec.check(lib); s.types.keys().cloned().collect::<BTreeSet<_>>() };
+    let lib_paths: BTreeMap<usize, Vec<String>> = spec.check(lib).1.types;
+    let lib_markers = lib_paths.keys().cloned().collect::<BTreeSet<_>>();
     let in_impl = {
         // is the parent of pos an impl?
         let mut cur: &Vec<It> = lib;
@@ -1174,8 +1175,12 @@ fn inject(lib: &mut Vec<It>, pos: &[usize], kind: &Defect, spec: &Spec, rng: &mu
             if all.is_empty() { return None; }
             let m = *rng.pick(&all);
             let at = rng.below(sibs.len() as u64 + 1) as usize;
-            sibs.insert(at, It::Type { name: format!("Dup{tag}"), m });
-            Some("type-twice".into())
+            // under a fresh identifier, or under the identifier the type already has (wherever `pos` is: mostly
+            // another scope than the first registration; in the same scope the name is taken as well)
+            let same = lib_paths.get(&m).and_then(|p| p.last().cloned()).filter(|_| rng.chance(1, 2));
+            let what = if same.is_some() { "type-twice same-identifier" } else { "type-twice" };
+            sibs.insert(at, It::Type { name: same.unwrap_or_else(|| format!("Dup{tag}")), m });
+            Some(what.into())
         }
         Defect::EmptyUsePath => None,
         Defect::Unregistered => {
@@ -1627,8 +1632,60 @@ fn usei(p: &[&[&str]]) -> It {
 /// boundary table: the witnesses of the known defects and a few hand-made shapes
 fn fixed_cases() -> Vec<(Vec<Vec<It>>, String)> {
     let mut v: Vec<(Vec<Vec<It>>, String)> = boundary_cases().into_iter().map(|(l, n)| (l, n.to_string())).collect();
+    v.extend(type_twice_cases());
     v.extend(history_cases());
     v
+}
+
+/// Class representatives of "a Rust type is registered twice": the decision of `Rt::declare_type` has three
+/// inputs per registered entry — same Rust type?, same identifier?, same scope? — and the property names only
+/// the first.  One history per (identifier of the second registration: the SAME as the first / another) x
+/// (where the two registrations stand: the same scope, root and a module, two sibling modules, a module and a
+/// module nested in it, two levels apart) x (one add / the second in a LATER add, either direction), each with
+/// a function over the type next to the second registration (whose signature would silently name the first),
+/// followed by the same library with the second registration given its own Rust type (must be accepted: the
+/// rejected add left nothing) and, as a control, the same NAME in the other scope for another Rust type.
+fn type_twice_cases() -> Vec<(Vec<Vec<It>>, String)> {
+    let t = |n: &str, m: usize| It::Type { name: s(n), m };
+    let fs = |n: &str, shape: Shape, tag: u64| It::Fn { name: s(n), shape, tag };
+    // `second(name, m)`: the second registration with a function over its type next to it
+    let second = |n: &str, m: usize, tag: u64| vec![t(n, m), fs("mk", Shape::S3(m), tag), fs("get", Shape::S1(m), tag + 1)];
+    let mut out = vec![];
+    for (idn, n2) in [("same identifier", "Meters"), ("another identifier", "Metres")] {
+        // ---- both registrations in ONE library
+        let one_add: Vec<(&str, Box<dyn Fn(usize) -> Vec<It>>)> = vec![
+            ("the same scope (root)", Box::new(move |m| { let mut v = vec![t("Meters", 0)]; v.extend(second(n2, m, 700)); v })),
+            ("the same scope (a module)", Box::new(move |m| vec![module("si", { let mut v = vec![t("Meters", 0)]; v.extend(second(n2, m, 700)); v })])),
+            ("root and a module", Box::new(move |m| vec![t("Meters", 0), module("geo", second(n2, m, 700))])),
+            ("two sibling modules", Box::new(move |m| vec![module("si", vec![t("Meters", 0), fs("one", Shape::S3(0), 710)]), module("imperial", second(n2, m, 700))])),
+            ("a module and a module nested in it", Box::new(move |m| vec![module("si", vec![t("Meters", 0), module("inner", second(n2, m, 700))])])),
+            ("two levels apart", Box::new(move |m| vec![module("a", vec![module("b", vec![t("Meters", 0)])]), module("c", vec![module("d", second(n2, m, 700))])])),
+        ];
+        for (place, lib) in &one_add {
+            // rejected as a whole; the same library with the second registration over its own Rust type
+            // (same identifier in the same scope stays a name clash: then the control is rejected too)
+            out.push((vec![lib(0), lib(1)], format!("type twice: {idn}, {place}, one add; then over another Rust type")));
+        }
+        // ---- the second registration in a LATER add
+        let later: Vec<(&str, Vec<It>, Box<dyn Fn(usize) -> Vec<It>>)> = vec![
+            ("root, then the root", vec![t("Meters", 0), fs("one", Shape::S3(0), 710)], Box::new(move |m| second(n2, m, 700))),
+            ("root, then a module", vec![t("Meters", 0), fs("one", Shape::S3(0), 710)], Box::new(move |m| vec![module("geo", second(n2, m, 700))])),
+            ("a module, then the root", vec![module("si", vec![t("Meters", 0), fs("one", Shape::S3(0), 710)])], Box::new(move |m| second(n2, m, 700))),
+            ("a module, then a sibling module", vec![module("si", vec![t("Meters", 0)])], Box::new(move |m| vec![module("imperial", second(n2, m, 700))])),
+            ("a module, then a nested module of another", vec![module("si", vec![t("Meters", 0)])], Box::new(move |m| vec![module("x", vec![module("y", second(n2, m, 700))])])),
+        ];
+        for (place, first, lib) in &later {
+            out.push((vec![first.clone(), lib(0), lib(1), vec![fs("after", Shape::S4(0), 720)]], format!("type twice: {idn}, {place}, later add; then over another Rust type")));
+        }
+    }
+    // three registrations of one Rust type under one identifier, three scopes, three adds
+    out.push((vec![vec![t("Meters", 2)], vec![module("p", vec![t("Meters", 2)])], vec![module("q", vec![module("r", vec![t("Meters", 2)])])], vec![module("p", vec![t("Meters", 3)])]],
+        s("type twice: same identifier, three scopes, three adds")));
+    // an impl block next to the second registration (its members would land on the first type)
+    out.push((vec![vec![module("si", vec![t("Meters", 0)]), module("imperial", vec![t("Meters", 0), It::Impl { ty: Some(0), ch: vec![f("zero", 730)] }])],
+        vec![module("si", vec![t("Meters", 0)]), module("imperial", vec![t("Meters", 1), It::Impl { ty: Some(1), ch: vec![f("zero", 730)] }])]],
+        s("type twice: same identifier, sibling modules, impl block next to the second")));
+    out
 }
 
 fn boundary_cases() -> Vec<(Vec<Vec<It>>, &'static str)> {
